@@ -141,6 +141,10 @@ def compare(exp, got, ordered=True, rtol=1e-9):
     for k in ("x0", "x1"):
         if ev[k] != "(default)" and (gv[k] is None or float(ev[k]) != float(gv[k])):
             bad.append(("text:variable", "%s: expected %r observed %r" % (k, ev[k], gv[k])))
+        # only a '# x0:' / '# x1:' line gives the variable a discrete mass (TextFormat!NoMassWithoutLine): whatever the variable is called,
+        # a file without the line has none -- otherwise its pit column would be randomised at that value instead of being read as written
+        if ev[k] == "(default)" and gv[k] is not None:
+            bad.append(("text:variable", "%s: the file has no '# %s:' line, yet the variable %r carries %s=%r" % (k, k, gv["name"], k, gv[k])))
     return bad
 
 
@@ -242,7 +246,8 @@ def _check_chunk(jobs):
         path = os.path.join(wd, "file.txt")
         with open(path, "w") as f:
             f.write(text)
-        rep = {"kind": "textfile", "file": text, "expected": obj["input"], "gen": obj.get("gen"), "noid": bool(obj.get("noid"))}
+        spec_noid = not any("".join(h) in ("location", "id") for h in obj["header"])        # id-less by TextFormat!LocationsNoId (emitted by TLC)
+        rep = {"kind": "textfile", "file": text, "expected": obj["input"], "gen": obj.get("gen"), "noid": bool(obj.get("noid")) or spec_noid}
         try:
             if obj.get("noid"):
                 with quiet():
@@ -269,8 +274,14 @@ def _check_chunk(jobs):
             with quiet():
                 got = project(inp)
             n += 1
+            if spec_noid:
+                got = _rekey_noid(obj["input"], got)
+                if got is None:
+                    divs.append(("text:locations:no-id-column", "a file without a location column: expected the sites %r, observed other sites"
+                                 % ([(l["lat"], l["lon"], l["elev"]) for l in obj["input"]["locations"]],), rep))
+                    continue
             for site, msg in compare(obj["input"], got):
-                divs.append((site, msg, rep))
+                divs.append((site + (":no-id-column" if spec_noid else ""), msg, rep))
         except SystemExit:
             divs.append(("text:error-exit", "reading a well-formed file ended in an error exit", rep))
         except Exception as e:
